@@ -3,6 +3,7 @@ package c05
 import (
 	"crypto/dsa"
 	"crypto/ecdsa"
+	"crypto/rand"
 	"crypto/rsa"
 	"fmt"
 	"io"
@@ -80,6 +81,10 @@ func genCode(t *rapid.T, label string, validMax int) int {
 
 // genMut draws a mutation of the blob-level tuple. cur is the kind of the signing key.
 func genMut(t *rapid.T, label string, signer *keys.Key) Mut {
+	if strings.HasPrefix(signer.Kind, "rsa") && pick(t, label+".pss", 8) == 0 {
+		// the same input signed with RSASSA-PSS but still declared rsa(1) = PKCS#1 v1.5
+		return Mut{Kind: "pss", A: pick(t, label+".salt", 3)}
+	}
 	if strings.HasPrefix(signer.Kind, "rsa") && pick(t, label+".rsazero", 5) == 0 {
 		// length-changing, value-preserving re-framings of an RSA signature (I2OSP is fixed-width)
 		return Mut{Kind: pickStr(t, label+".zk", []string{"zeroprepend", "zerostrip", "zerostrip"}), A: pick(t, label+".a", 1<<14)}
@@ -98,7 +103,7 @@ func genMut(t *rapid.T, label string, signer *keys.Key) Mut {
 		case "rs":
 			kinds = []string{"rsa1024", "rsa2048", "rsa3072", "rsa2050", "rsa2052", "rsa1030"}
 		case "ds":
-			kinds = []string{"dsa1024", "dsa2048"}
+			kinds = []string{"dsa1024", "dsa2048", "dsa2048n224"}
 		case "ed":
 			kinds = []string{"ed25519"}
 		default:
@@ -184,6 +189,26 @@ func applyMut(p *presented, m Mut) string {
 		}
 	case "empty":
 		p.val = nil
+	case "pss":
+		// Re-sign the presented message under the presented key with RSASSA-PSS (salt auto / hash-sized /
+		// empty), leaving the declared codes alone. A valid PSS signature is not a valid PKCS#1 v1.5 one.
+		if p.key != nil {
+			if priv, ok := p.key.Signer.(*rsa.PrivateKey); ok {
+				if digest, h, ok := refDigest(p.hash, p.msg); ok {
+					salt := []int{rsa.PSSSaltLengthAuto, rsa.PSSSaltLengthEqualsHash, 0}[m.A%3]
+					sig, err := rsa.SignPSS(rand.Reader, priv, h, digest, &rsa.PSSOptions{SaltLength: salt, Hash: h})
+					if err != nil { // hash-sized salt does not fit a small modulus
+						sig, err = rsa.SignPSS(rand.Reader, priv, h, digest, &rsa.PSSOptions{SaltLength: 0, Hash: h})
+					}
+					if err == nil {
+						p.val = sig
+						return "pss"
+					}
+				}
+			}
+		}
+		p.val = flipBit(p.val, m.A+3)
+		return "flipsig"
 	case "zeroprepend", "zerostrip":
 		// the same integer in more or fewer octets: never the same signature value
 		if m.Kind == "zerostrip" && len(p.val) > 1 && p.val[0] == 0 {
